@@ -17,7 +17,13 @@ import ndn.encoding as enc
 from ndn.encoding import Signer, InterestParam, MetaInfo, make_interest, make_data, parse_interest, parse_data
 from ndn.security import (Sha256WithEcdsaSigner, Sha256WithRsaSigner, HmacSha256Signer, Ed25519Signer,
                           DigestSha256Signer, NullSigner)
+from ndn.encoding import SignatureType
+from ndn.security.validator.known_key_validator import (verify_ecdsa, verify_rsa, verify_hmac, verify_ed25519,
+                                                        EccChecker, RsaChecker, HmacChecker, Ed25519Checker)
+from ndn.security.validator.digest_validator import sha256_digest_checker, params_sha256_checker
 from Cryptodome.PublicKey import ECC, RSA
+from Cryptodome.Hash import SHA256, HMAC
+from Cryptodome.Signature import DSS, pkcs1_15, eddsa
 
 T_PD = 2
 
@@ -230,6 +236,87 @@ def build(cfg, rng, pool, target=True, name_form='list'):
     finally:
         dsm.gen_nonce_64 = saved
     return b
+
+
+# ----------------------------------------------------------------------------- verifiers
+
+def run_sync(coro):
+    try:
+        coro.send(None)
+    except StopIteration as e:
+        return e.value
+    raise MachineryError('validator suspended')
+
+
+class Verifier:
+    """The matching verifier(s) for a built packet: library functions (what the property names) and an
+    independent PyCryptodome call on explicit bytes."""
+
+    def __init__(self, cfg, b, pool):
+        self.kind = k = cfg['sg']['kind']
+        self.pool = pool
+        self.kl = b.kl
+        self.has = k in ('digest', 'digestI', 'hmac', 'rsa', 'ecdsa', 'ed25519') or (k == 'syn' and cfg['sg']['a'] >= 16)
+        self.syn_a = cfg['sg']['a']
+        self.ec = pool.ec.get(cfg['sg']['r'], (None, None))[1] if k == 'ecdsa' else None
+
+    def lib(self, name, sp, raw_only=False):
+        """-> list of (verifier-name, accepted); raw_only: just verify_* (the *Checker classes wrap it and can only
+        be stricter), used in the tamper loops"""
+        k = self.kind
+        out = []
+        try:
+            if k in ('digest', 'digestI'):
+                ok = bool(sp.signature_info) and sp.signature_info.signature_type == SignatureType.DIGEST_SHA256 \
+                    and run_sync(sha256_digest_checker(name, sp))
+                out.append(('sha256_digest_checker', bool(ok)))
+            elif k == 'hmac':
+                out.append(('verify_hmac', bool(verify_hmac(self.pool.hmac, sp))))
+                if not raw_only:
+                    out.append(('HmacChecker', bool(run_sync(HmacChecker.from_key(self.kl, self.pool.hmac)(name, sp)))))
+            elif k == 'rsa':
+                out.append(('verify_rsa', bool(verify_rsa(self.pool.rsa[1], sp))))
+                if not raw_only:
+                    out.append(('RsaChecker', bool(run_sync(RsaChecker.from_key(self.kl, self.pool.pub_der('rsa'))(name, sp)))))
+            elif k == 'ecdsa':
+                out.append(('verify_ecdsa', bool(verify_ecdsa(self.ec, sp))))
+                if not raw_only:
+                    out.append(('EccChecker', bool(run_sync(EccChecker.from_key(self.kl, self.ec.export_key(format='DER'))(name, sp)))))
+            elif k == 'ed25519':
+                out.append(('verify_ed25519', bool(verify_ed25519(self.pool.ed[1], sp))))
+                if not raw_only:
+                    out.append(('Ed25519Checker', bool(run_sync(Ed25519Checker.from_key(self.kl, self.pool.pub_der('ed25519'))(name, sp)))))
+            elif k == 'syn':
+                cov = b''.join(bytes(c) for c in sp.signature_covered_part)
+                h = hashlib.sha256(cov).digest()
+                out.append(('syn-verifier', bytes(sp.signature_value_buf or b'') == (h * (self.syn_a // 32 + 1))[:self.syn_a]))
+        except Exception:  # noqa: a verifier that raises has not accepted
+            out.append(('raised', False))
+        return out
+
+    def accepted(self, name, sp):
+        return [n for n, ok in self.lib(name, sp, raw_only=True) if ok]
+
+    def independent(self, covered, sig):
+        """PyCryptodome directly on explicit bytes."""
+        k = self.kind
+        try:
+            if k in ('digest', 'digestI'):
+                return hashlib.sha256(covered).digest() == sig
+            if k == 'hmac':
+                return HMAC.new(self.pool.hmac, covered, digestmod=SHA256).digest() == sig
+            if k == 'rsa':
+                pkcs1_15.new(self.pool.rsa[1]).verify(SHA256.new(covered), sig)
+                return True
+            if k == 'ecdsa':
+                DSS.new(self.ec, 'fips-186-3', 'der').verify(SHA256.new(covered), sig)
+                return True
+            if k == 'ed25519':
+                eddsa.new(self.pool.ed[1], 'rfc8032').verify(covered, sig)
+                return True
+        except ValueError:
+            return False
+        return True
 
 
 # ----------------------------------------------------------------------------- projection
